@@ -34,6 +34,10 @@ def setup():
     os.environ.setdefault("SKEPTICOIN_VERIF", "1")
     if REPO not in sys.path:
         sys.path.insert(0, REPO)
+    import contextlib
+    import io
+    with contextlib.redirect_stdout(io.StringIO()):
+        import skepticoin.blockstore  # noqa: F401  (creates ./chain.db in the scratch directory, prints a line)
     return d
 
 
@@ -429,6 +433,7 @@ class World:
         blk = self.mine(parent_hash, d["height"], d["ts"], target, txs, pow_ok=d["powok"], ev_ok=d["evok"],
                         merkle_ok=d["merkleok"])
         self.by_abs[d["id"]] = blk
+        self.register(blk)
         return blk
 
     # ---- observing
